@@ -8,6 +8,7 @@ import (
 	"strings"
 
 	"verif/internal/doc"
+	"verif/internal/drv"
 	"verif/internal/fw"
 	"verif/internal/jsonx"
 )
@@ -67,14 +68,38 @@ func runC10Corpus(c *fw.Ctx) {
 		if c.Expired() {
 			return
 		}
+		c10PermuteDoc(c, d, "fixture:"+d.name, maxAll, true)
+	}
+	// rejected documents stay rejected in every order: every single-fault document of C11 that the
+	// scan phase reads (duplicates, similar paths, undefined references, second singletons ...),
+	// delivered directly, with its top-level declarations in ALL orders (<= 4 declarations) or in
+	// all transpositions
+	if faultTapHook != nil {
+		faultTapHook(c, func(label string, p drv.Project) {
+			if len(p.Files) != 1 || !strings.HasSuffix(label, " direct") {
+				return
+			}
+			d, _ := buildCdoc(label, p.Files[p.Root])
+			if d == nil || len(d.top) > 6 {
+				return
+			}
+			c10PermuteDoc(c, d, "faulty:"+label, 4, false) // the injector has dealt this project to this worker already
+		})
+	}
+}
+
+// c10PermuteDoc judges one document (accepted or rejected) under the orders of its top-level
+// declarations: all of them up to maxAll declarations, all transpositions beyond.
+func c10PermuteDoc(c *fw.Ctx, d *cdoc, name string, maxAll int, deal bool) {
+	{
 		if len(d.top) < 3 || d.top[0].tree.kw != "JSIGHT" {
-			continue
+			return
 		}
 		head := d.chunkText(d.top[0])
 		decls := d.top[1:]
 		n := len(decls)
 		if n > 40 {
-			continue
+			return
 		}
 		texts := make([]string, n)
 		sx := make([]string, n)
@@ -82,17 +107,16 @@ func runC10Corpus(c *fw.Ctx) {
 			texts[i] = d.chunkText(ch)
 			sx[i] = ch.tree.sexpr()
 		}
-		name := "fixture:" + d.name
 		base := run1(d.text)
 		if base.Crashed() {
-			continue
+			return
 		}
 		var baseE map[string]string
 		if base.OK() {
 			baseE, _ = catalogEntries(base)
 		}
 		try := func(p []int) {
-			if !c.Next() {
+			if deal && !c.Next() {
 				return
 			}
 			c.Count("evaluations", 1)
